@@ -1,8 +1,9 @@
 import Mkdb.Proofs.Join
+import Mkdb.Proofs.TableNames
 /-!
 # C06 — JOIN results equal the relational definition
 
-Property theorems only (proofs in `Mkdb/Proofs/Join.lean`).  Quantifier: every table
+Property theorems only (proofs in `Mkdb/Proofs/Join.lean`, `Mkdb/Proofs/TableNames.lean`).  Quantifier: every table
 content (empty sides, duplicate keys), every chain of INNER / LEFT / RIGHT joins, every ON
 condition that evaluates to a boolean on every pair.
 -/
@@ -81,5 +82,49 @@ theorem C06_padding_null_in_an_ordering_comparison (p : Pred) (fields : List Fie
   have h3 : (l == Tuple.Val.null || r == Tuple.Val.null) = true := by
     rcases hnull with rfl | rfl <;> simp
   simp [h1, h2, h3, pure]
+
+/-- **C06.one_name_for_two_tables_refused**: a table id - the alias of a table if it has one, else
+its name - is used once in a FROM clause.  `l JOIN r ON c` where some field gathered for `l` already
+carries the table id of `r` (the id `fetchTable` gives every field of `r`, read off the first one;
+`r` must have a column for that) is refused as ambiguous, whatever the condition and the join type,
+instead of resolving every qualified reference silently to the left-most table (the repaired
+defect); and the relational definition agrees: the clause has no meaning. -/
+theorem C06_one_name_for_two_tables_refused (fetch : Bytes → Option Table) (l : TableRef) (jt : JoinType)
+    (r : TableName) (on : Cond) :
+    (∀ (lRows rRows : List Row) (lFields rFields : List Field),
+      nestedLoopJoin fetch l = .ok (lRows, lFields) → fetchTable fetch r = .ok (rRows, rFields) →
+      rFields ≠ [] → (∃ f ∈ lFields, f.tableId = r.alias.getD r.name) →
+      nestedLoopJoin fetch (.join l jt r on) = .err .fieldAmbiguous) ∧
+    (∀ (lRows rRows : List Row) (lFields rFields : List Field) (f0 : Field),
+      nestedLoopJoin fetch l = .ok (lRows, lFields) → fetchTable fetch r = .ok (rRows, rFields) →
+      rFields.head? = some f0 → (∃ f ∈ lFields, f.tableId = f0.tableId) →
+      nestedLoopJoin fetch (.join l jt r on) = .err .fieldAmbiguous) ∧
+    (∀ (L R : List Row) (lf rf : List Field),
+      Spec.fromRows fetch l = some (L, lf) → Spec.fieldsOf fetch r = some (R, rf) →
+      rf.any (fun g => lf.any (·.tableId == g.tableId)) = true →
+      Spec.fromRows fetch (.join l jt r on) = none) :=
+  ⟨fun lRows rRows lFields rFields hl hr hne hc =>
+      nestedLoopJoin_one_name_for_two_tables fetch l jt r on lRows rRows lFields rFields hl hr hne hc,
+   fun lRows rRows lFields rFields f0 hl hr h0 hc =>
+      nestedLoopJoin_one_name_for_two_tables' fetch l jt r on lRows rRows lFields rFields f0 hl hr h0 hc,
+   fun L R lf rf hL hR hc => fromRows_one_name_for_two_tables fetch l jt r on L R lf rf hL hR hc⟩
+
+/-- **C06.table_ids_distinct**: whenever the relational definition of a FROM clause is defined,
+(1) its header is the concatenation of the fields of its tables, left to right, and fields of two
+different tables never share a table id, so that (2) a qualified reference `id.col` matches fields
+of at most one table (tables counted by position: one table joined to itself counts twice); and
+(3) the table ids of its tables (`tableIds`: alias, else name, left to right) are pairwise distinct
+provided every table of the clause has at least one column (`AllHaveColumns`).  A table without
+columns contributes no field to the header: the test, which looks at fields, cannot see it - and no
+reference can name a column of it - so (3) needs the proviso while (1) and (2) do not. -/
+theorem C06_table_ids_distinct (fetch : Bytes → Option Table) (tr : TableRef) (rows : List Row)
+    (fields : List Field) (h : Spec.fromRows fetch tr = some (rows, fields)) :
+    (fields = (tableBlocks fetch tr).flatten ∧
+      (tableBlocks fetch tr).Pairwise fun b₁ b₂ => ∀ f ∈ b₁, ∀ g ∈ b₂, f.tableId ≠ g.tableId) ∧
+    (∀ id : Bytes, ((tableBlocks fetch tr).filter fun b => b.any (·.tableId == id)).length ≤ 1) ∧
+    ((∀ t ∈ tablesOf tr, ∀ tbl, fetch t.name = some tbl → tbl.cols ≠ []) → (tableIds tr).Nodup) :=
+  ⟨⟨fromRows_fields_eq_blocks fetch tr rows fields h, fromRows_blocks_disjoint fetch tr rows fields h⟩,
+   fun id => qualified_ref_at_most_one_table fetch tr rows fields h id,
+   fun hcols => fromRows_tableIds_nodup fetch tr rows fields h hcols⟩
 
 end Mkdb.Exec
